@@ -156,9 +156,9 @@ theorem inv_step {s s' : State} {a : Act} (h : Inv s) (hs : step s a = some s') 
       constructor
       · intro j
         by_cases hj : j = i
-        · subst hj; simp [List.countP_cons, ← h.count j, hrc]
+        · subst hj; simp [← h.count j, hrc]
         · have : (i == j) = false := by simpa using (Ne.symm hj)
-          simp [hj, List.countP_cons, this, h.count j]
+          simp [hj, this, h.count j]
       · intro j
         by_cases hj : j = i
         · subst hj; simp
@@ -184,15 +184,15 @@ theorem inv_step {s s' : State} {a : Act} (h : Inv s) (hs : step s a = some s') 
       constructor
       · intro j
         by_cases hj : j = i
-        · subst hj; simp [incref, List.countP_cons, ← h.count j]
+        · subst hj; simp [incref, ← h.count j]
         · have : (i == j) = false := by simpa using (Ne.symm hj)
-          simp [incref, hj, List.countP_cons, this, h.count j]
+          simp [incref, hj, this, h.count j]
       · intro j
         by_cases hj : j = i
         · subst hj; simp [incref, hg]
         · simp [incref, hj, h.hosted j]
       · intro c j hm
-        simp [incref] at hm
+        simp at hm
         simpa [incref] using h.item c j hm
       · intro j; simpa [incref] using h.shm j
       · intro p j hp hm
@@ -207,15 +207,15 @@ theorem inv_step {s s' : State} {a : Act} (h : Inv s) (hs : step s a = some s') 
       constructor
       · intro j
         by_cases hj : j = i
-        · subst hj; simp [incref, List.countP_cons, ← h.count j]
+        · subst hj; simp [incref, ← h.count j]
         · have : (i == j) = false := by simpa using (Ne.symm hj)
-          simp [incref, hj, List.countP_cons, this, h.count j]
+          simp [incref, hj, this, h.count j]
       · intro j
         by_cases hj : j = i
         · subst hj; simp [incref, hg.2.2.2.2]
         · simp [incref, hj, h.hosted j]
       · intro c j hm
-        simp [incref] at hm
+        simp at hm
         simpa [incref] using h.item c j hm
       · intro j; simpa [incref] using h.shm j
       · intro p j hp hm
@@ -232,15 +232,15 @@ theorem inv_step {s s' : State} {a : Act} (h : Inv s) (hs : step s a = some s') 
       constructor
       · intro j
         by_cases hj : j = i
-        · subst hj; simp [incref, List.countP_cons]; omega
+        · subst hj; simp [incref]; omega
         · have : (i == j) = false := by simpa using (Ne.symm hj)
-          simp [incref, hj, List.countP_cons, this, hec.1 j hj]
+          simp [incref, hj, this, hec.1 j hj]
       · intro j
         by_cases hj : j = i
         · subst hj; simp [incref, hho]
         · simp [incref, hj, h.hosted j]
       · intro c j hmem
-        simp [incref] at hmem
+        simp at hmem
         rcases hmem with ⟨rfl, rfl⟩ | hmem
         · simp [dstOk] at hd
         · simpa [incref] using h.item c j (by first | exact hmem | exact List.mem_of_mem_erase hmem)
@@ -276,9 +276,9 @@ theorem inv_step {s s' : State} {a : Act} (h : Inv s) (hs : step s a = some s') 
       constructor
       · intro j
         by_cases hj : j = i
-        · subst hj; simp [List.countP_cons]; omega
+        · subst hj; simp; omega
         · have : (i == j) = false := by simpa using (Ne.symm hj)
-          simp [List.countP_cons, this, hec.1 j hj]
+          simp [this, hec.1 j hj]
       · exact h.hosted
       · intro c' j hmem
         simp at hmem
@@ -299,9 +299,9 @@ theorem inv_step {s s' : State} {a : Act} (h : Inv s) (hs : step s a = some s') 
       constructor
       · intro j
         by_cases hj : j = i
-        · subst hj; simp [List.countP_cons]; omega
+        · subst hj; simp; omega
         · have : (i == j) = false := by simpa using (Ne.symm hj)
-          simp [List.countP_cons, this, hec.1 j hj]
+          simp [this, hec.1 j hj]
       · exact h.hosted
       · intro c' j hmem
         simp at hmem
